@@ -693,6 +693,8 @@ def _reach_avoiding(f, a, ret, avoid_insts):
 
 def check_count(m, f, entry, rule):
     bad = set()
+    _r = Roles(m)
+    role_fns = set(_r.names('checked')) | set(_r.names('cleaner')) | set(_r.names('sweep')) | set(_r.names('pa_lookup'))
     init = (0, 0, 0)     # increments, decrements, chain writes by the entry point's own code
 
     def transfer(ins, st, ps):
@@ -707,7 +709,9 @@ def check_count(m, f, entry, rule):
                         return (min(inc + 1, 3), dec, link)
                     return (inc, min(dec + 1, 3), link)
                 bad.add('the element count is written with a value that is not count +/- 1 at %s' % ins.loc())
-            elif ins.srcfn == entry:
+            elif ins.srcfn not in role_fns and not any(fn_ in role_fns for fn_, _ln in ins.ia):
+                # the entry point's own chain update: written in place, in a link helper or in its visitor -- but not what
+                # the lookup / cleaner / sweep do on the way (those are inlined here as well)
                 a = resolve_addr(f, ins.o[1])
                 last = a.fsteps[-1:] if a.fsteps else ()
                 chain = last in ((('cstl_hash_bucket', 'n'),), (('cstl_hash_node', 'next'),))
@@ -721,8 +725,17 @@ def check_count(m, f, entry, rule):
                     return (inc, dec, min(link + 1, 5))
         return st
 
+    # result flags (a visitor's "found, stop" value merged from constants) are followed, nothing else
+    flags = set()
+    changed = True
+    while changed:
+        changed = False
+        for i_ in f.all_insts():
+            if i_.op == 'phi' and i_.ref not in flags and all(const_int(o) is not None or (isinstance(o, str) and o in flags) for o in i_.o):
+                flags.add(i_.ref)
+                changed = True
     try:
-        res = typestate.run(f, init, transfer, track=lambda r: False, limit=150000)
+        res = typestate.run(f, init, transfer, track=lambda r: r in flags, limit=150000)
     except typestate.Limit as e:
         rule.undecided(entry, str(e), floc(m, f))
         return
